@@ -10,5 +10,6 @@ import Xrfmv.Props.C14
 #print axioms Xrfmv.Props.C14.normalised_max_one_model
 #print axioms Xrfmv.Props.C14.normalised_max_one_diag
 #print axioms Xrfmv.Props.C14.root_squares_back
+#print axioms Xrfmv.Props.C14.root_model_squares_back
 #print axioms Xrfmv.Props.C14.root_squares_back_diag
 #print axioms Xrfmv.Props.C14.centred_per_batch_depends_on_partition
